@@ -29,6 +29,20 @@ Example C05_former_counterexample :
   has_pending_row (c_db (f_c s)) 1 5 = true /\ has_receipt_row (c_db (f_c s)) 0 5 = false /\ f_log s = f_log (frun f_init (removelast w_c05_ops)).
 Proof. vm_compute. repeat split. Qed.
 
+(* The per-tower turn of the notification handler works with the status it cloned BEFORE its loop (`st`), which may be
+   stale by the time the tower's turn comes (another tower answered slowly, the tower's retrier went idle meanwhile), and
+   with the retrier state of THAT moment (`s`).  Whatever the stale status says - it is quantified independently of the
+   state - the turn leaves a record for the pair: the tower row, and a receipt, a pending or an invalid row unless a proof is
+   stored. *)
+Theorem C05_turn_records_whatever_the_snapshot s l t st rp s' :
+  FInv s -> knownc (f_c s) t -> (st = Misbehaving -> Mrow (c_db (f_c s)) t) ->
+  rev_tower s l t st rp = (s', None) ->
+  Trow (c_db (f_c s')) t /\ (~ Mrow (c_db (f_c s')) t -> Rrow (c_db (f_c s')) t l \/ Prow (c_db (f_c s')) t l \/ Irow (c_db (f_c s')) t l).
+Proof.
+  intros HF Hk Hm E. destruct (FInv_rev_tower s l t st rp s' None HF Hk Hm E) as [_ [_ [_ [_ H]]]]. exact (proj2 (H eq_refl)).
+Qed.
+Print Assumptions C05_turn_records_whatever_the_snapshot.
+
 (* SIGKILL at any moment: every durable state an operation writes (`crash_states`: the database before, and after
    each of its durable statements / transactions, in program order) still holds AT LEAST ONE record for every
    (tower, locator) owed before the operation - the transient two-record state of a move is the intended mechanism. *)
